@@ -134,7 +134,14 @@ func (j *Joe) Subscribe(ctx context.Context, sub Subscription) error {
 	case err := <-done:
 		return err
 	case j.unsubscription <- done:
-		return nil
+		// The subscriber might have failed right before the unsubscription
+		// was handed in; its error must not be lost.
+		select {
+		case err := <-done:
+			return err
+		default:
+			return nil
+		}
 	}
 }
 
@@ -196,6 +203,12 @@ func (j *Joe) Shutdown(ctx context.Context) (err error) {
 }
 
 func (j *Joe) removeSubscriber(sub subscriber) {
+	// An unsubscription may arrive for a subscriber that was already removed
+	// (because it failed) or never registered (because its replay failed):
+	// closing its channel again would panic.
+	if _, ok := j.subscribers[sub]; !ok {
+		return
+	}
 	delete(j.subscribers, sub)
 	close(sub)
 }
